@@ -383,7 +383,12 @@ class Check:
         cov.update(self.extra_cov)
         ev = dict(property_id=self.pid, tier=self.tier, seed=self.seed, level="proof", coverage=cov,
                   assumptions=cfg.get("assumptions", []), wall_s=round(time.time() - self.t0, 2), violations=nviol)
-        json.dump(ev, open(os.path.join(self.root, "evidence", f"{self.pid}.json"), "w"), indent=1)
+        # evidence/<id>.json describes the run against /repo; a run against another tree (VERIF_REPO: seeded
+        # worktrees of the self-test) writes its evidence next to its scratch files instead
+        dst = os.path.join(self.root, "evidence", f"{self.pid}.json")
+        if os.path.realpath(REPO) != "/repo":
+            dst = os.path.join(self.work, f"evidence_{self.pid}.json")
+        json.dump(ev, open(dst, "w"), indent=1)
 
 
 def do_replay(root, pid, path):
